@@ -116,6 +116,23 @@ LTNumberKids(v, j, nm) ==
 RECURSIVE SetToSeq(_)
 SetToSeq(S) == IF S = {} THEN <<>> ELSE LET x == CHOOSE y \in S : TRUE IN <<x>> \o SetToSeq(S \ {x})
 
+\* The vertices whose immediate dominator step 3 left implicit ("deferred": idom # sdom before step 4), and among
+\* them those whose placeholder is itself deferred.  Step 4 resolves a deferred vertex by reading the idom of its
+\* placeholder, so on such a chain the order in which step 4 visits the vertices matters (preorder: ancestors
+\* first).  Used by the generator to aim at graphs on which that order is observable.
+LTDeferralChains(G) ==
+  LET N   == Nodes(G)
+      z   == [ b \in N |-> 0 ]
+      st0 == [ pre |-> z, sdom |-> z, parent |-> z, anc |-> z, order |-> <<>>, idom |-> z,
+               buckets |-> [ k \in 0..(G.n - 1) |-> 0 ], crash |-> FALSE ]
+      d1  == LTDfs(G, 1, st0)
+      d2  == IF G.recover # 0 THEN LTDfs(G, G.recover, d1) ELSE d1
+      d3  == [d2 EXCEPT !.buckets = [ k \in 0..(G.n - 1) |-> d2.order[k + 1] ]]
+      lp  == LTLoop(G, d3, G.n - 1)
+      f3  == IF lp.crash THEN lp ELSE LTFinal3(lp, lp.buckets[0])
+      Def == { w \in N : w # 1 /\ w # G.recover /\ f3.idom[w] # 0 /\ f3.idom[w] # f3.sdom[w] }
+  IN  IF Len(d2.order) # G.n \/ f3.crash THEN {} ELSE { w \in Def : f3.idom[w] \in Def }
+
 \* buildDomTree(fn) followed by reading every answer through the public accessors
 LTAnswers(G) ==
   LET N   == Nodes(G)
